@@ -183,11 +183,19 @@ MALFORMED_ARGS = [
     ({"sql": "﻿SELECT 1"}, "byte order mark"),
 ]
 
-# heavy variants used when the caller's deadline is meant to fire while the engine is running
+# heavy but finite variants (a few seconds of engine time), used when the caller's deadline is meant to fire
+# while the engine is running, and for "endless" texts whose deadline fires before or right at the start of
+# the query: the SQLite driver loses an interrupt issued before the first step, and a truly endless statement
+# would then never return
 SLOW_PLAIN = [
-    "SELECT count(*) FROM trace a, trace b, trace c, trace d",
-    "SELECT a.Kind, count(*) FROM trace a, trace b, trace c, trace d GROUP BY a.Kind",
-    RECURSE.replace("FROM c)", "FROM c WHERE x < 90000000)") + "SELECT count(*) FROM c",
+    "SELECT count(*) FROM trace a, trace b, trace c",
+    "SELECT a.Kind, count(*) FROM trace a, trace b, trace c GROUP BY a.Kind",
+    RECURSE.replace("FROM c)", "FROM c WHERE x < 20000000)") + "SELECT count(*) FROM c",
+]
+LONG_NOT_ENDLESS = [
+    RECURSE.replace("FROM c)", "FROM c WHERE x < 30000000)") + "SELECT count(*) FROM c",
+    RECURSE.replace("FROM c)", "FROM c WHERE x < 30000000)") + "SELECT x FROM c WHERE x < 0",
+    "SELECT count(*) FROM trace a, trace b, trace c WHERE a.ID + b.ID + c.ID < 0",
 ]
 
 _TOKEN = re.compile(r"""
